@@ -75,6 +75,11 @@ def run(c):
                       "sync": False, "ucas": False, "_refused": "idmap"})
     cases.append({"id": len(cases), "ns": ["user"], "gidmap_setgroups": False, "cred": {"uid": 0, "gid": 0, "groups": [5], "nosetgroups": False},
                   "dropcaps": False, "nnp": False, "seccomp": False, "ptrace": False, "stop": False, "sync": False, "ucas": False, "_refused": "setgroups"})
+    # the launcher has real ids 1000 and effective ids 0 (a set-uid-root launcher) and asks for the ids 1000: every id must be switched
+    for dc in (False, True):
+        for sy in (False, True):
+            cases.append({"id": len(cases), "ns": [], "split_ids": True, "cred": {"uid": 1000, "gid": 1000, "groups": [1000], "nosetgroups": False},
+                          "dropcaps": dc, "nnp": False, "seccomp": False, "ptrace": False, "stop": False, "sync": sy, "ucas": False, "_split": True})
     # the launcher lacks CAP_SETPCAP: the secure bits cannot be locked, so capabilities could come back at exec; the launch must be refused
     for ucas in (False, True):
         cases.append({"id": len(cases), "ns": [], "nosetpcap": True, "dropcaps": True, "nnp": False, "seccomp": False, "ptrace": False, "stop": False,
@@ -143,6 +148,8 @@ def run(c):
             bad.append("sync callback called=%s configured=%s" % (o["callback_called"], x["sync"]))
         for b in bad:
             c.finding_or_violation(canon(b.split(":")[0].split(" %d")[0]), dict(rep, detail=b), klass=b.split(":")[0][:40])
+        if x.get("_split"):
+            continue        # the model's launcher is plain root: these launches are judged by the oracle above only
         # Coq
         cfg = ("{| f_cred := %s; f_gidmap := %s; f_gidmap_setgroups := %s; f_dropcaps := %s; f_nnp := %s; f_seccomp := %s; f_ptrace := %s; "
                "f_stop := %s; f_sync := %s; f_ucas := %s; f_workdir := %s; f_host := %s; f_domain := %s |}") % (
